@@ -15,7 +15,7 @@ type ConvClause struct {
 	Labels             []string
 	AlwaysReturnsFalse bool // the clause body ends in `return false` on its fall-through path
 	AlwaysReturnsTrue  bool
-	ReturnsFalseSome   bool // contains a conditional `return false`
+	ReturnsFalseSome   bool            // contains a conditional `return false`
 	Calls              map[string]bool // builder methods / helpers called in the clause
 	Stores             []string        // assignments to fields of the node
 }
